@@ -576,6 +576,34 @@ func (c *Ctx) keepPrivate(st *State, before map[string]T) {
 }
 
 // assumeValid assumes a loaded/received value refers to allocated memory.
+// assumeEntryValid: the heap `heap` has not changed since the verified function
+// was entered, so the value v read at address addr is the entry value; the
+// entry state is closed under reachability (an object allocated at entry only
+// points to objects allocated at entry). Guarded by "addr was allocated at
+// entry": contents of objects a callee allocated are described on the same
+// (unchanged) heap version and may point to fresh objects.
+func (c *Ctx) assumeEntryValid(st *State, addr T, v T, heap string) {
+	if c.entry == nil {
+		return
+	}
+	cur, ok := st.heaps[heap]
+	ent, ok2 := c.entry.heaps[heap]
+	if !ok || !ok2 || cur.S != ent.S {
+		return
+	}
+	al, ok := c.entry.heaps[HAlloc]
+	if !ok {
+		return
+	}
+	guard := And(Not(Eq(addr, Nil)), Select(al, c.rroot(addr)))
+	switch v.Sort {
+	case "Ref":
+		c.assume(st, Implies(guard, Or(Eq(v, Nil), Select(al, c.rroot(v)))))
+	case "Slice":
+		c.assume(st, Implies(guard, Or(Eq(SArr(v), Nil), Select(al, c.rroot(SArr(v))))))
+	}
+}
+
 func (c *Ctx) assumeValid(st *State, v T, t types.Type) {
 	switch v.Sort {
 	case "Ref":
